@@ -61,6 +61,7 @@ type vtimer struct {
 	fired   bool
 	stopped bool
 	cell    *value
+	vc      vclock // race detection: the creator's clock when the timer was armed
 }
 
 func (m *Machine) fireTimers() value {
@@ -90,6 +91,7 @@ func (m *Machine) fireTimerNoYield(t *vtimer) {
 	t.fired = true
 	if t.f != nil {
 		// AfterFunc runs its callback in its own goroutine
+		m.raceForkExtra = t.vc
 		m.spawn(t.f, nil, 0)
 	} else if t.ch != nil {
 		if len(t.ch.buf) < t.ch.cap {
@@ -150,7 +152,11 @@ func (m *Machine) nextTimer() *vtimer {
 
 // nowValue returns a fresh symbolic instant, non-decreasing along the path.
 func (m *Machine) nowValue() value {
-	v := m.newInput("envnow", types.Int64).(symv)
+	vin := m.newInput("envnow", types.Int64)
+	if m.conc != nil {
+		return vin // concrete replay: the instant of the counterexample
+	}
+	v := vin.(symv)
 	lo := m.ctx.BV(0, 64)
 	if m.nowTerm != nil {
 		lo = m.nowTerm
@@ -235,6 +241,12 @@ func registerTime(p *Program) {
 			dur = asInt64(d)
 		}
 		t := &vtimer{id: len(m.timers), dur: dur, f: f, ch: ch}
+		if m.raceOn() {
+			t.vc = m.raceVC(m.cur).clone()
+			if ch != nil {
+				m.raceRelease(ch) // receiving from the timer channel happens after arming it
+			}
+		}
 		t.deadline = m.binop(token.ADD, nil, m.clock(), d)
 		m.timers = append(m.timers, t)
 		// *time.Timer{C <-chan Time; initTimer bool}
